@@ -162,7 +162,7 @@ let tag_name (t : tag) : string =
 (* ------------------------------------------------------------------------------------------ transcript *)
 
 type pollrec = { now : int; busy : bool; rxs : string; txs : string; consumed : int; calls : string; obs : string }
-type event = Api of string * string | Poll of pollrec | PanicEv of string
+type event = Api of string * string | Poll of pollrec | PanicEv of string | TimeoutEv
 
 let parse_event (last_obs : string ref) (s : string) : event =
   let expand o = if o = "=" then !last_obs else (last_obs := o; o) in
@@ -172,6 +172,7 @@ let parse_event (last_obs : string ref) (s : string) : event =
       Poll { now = int_of_string now; busy = (busy = "1"); rxs = rx; txs = tx; consumed = int_of_string consumed;
              calls; obs = expand obs }
   | "PANIC" :: rest -> PanicEv (String.concat " " rest)
+  | ["TIMEOUT"] -> TimeoutEv
   | _ -> raise (Bad ("event " ^ s))
 
 (* obs fields: c<conn>r<ring>/ns/ps/las/active/fingerprint *)
@@ -232,8 +233,9 @@ let calls_of_string (s : string) (tx : z list) : call list =
 
 let view_of_obs (o : string) : view =
   match obs_fields o with
-  | [cr; ns; ps; las; act; _] ->
-      { v_conn = (match cr.[1] with '0' -> ConnOffline | '1' -> ConnPassive | _ -> ConnOnline);
+  | [cr; ns; ps; las; act; fp] ->
+      { v_gap_due = starts_with "DoPoll" fp;
+        v_conn = (match cr.[1] with '0' -> ConnOffline | '1' -> ConnPassive | _ -> ConnOnline);
         v_in_ring = (cr.[3] = '1'); v_kind = kind_of_name (state_name_of_obs o);
         v_ns = z_of_int (int_of_string ns); v_ps = z_of_int (int_of_string ps); v_las_valid = (las = "A");
         v_active = (if act = "-" then [] else List.map (fun a -> z_of_int (int_of_string a)) (String.split_on_char ',' act)) }
@@ -251,6 +253,9 @@ let rule_name = function
   | R12_gap_poll_outside_gap -> "gap_poll_outside_gap" | R12_two_gap_polls_per_visit -> "two_gap_polls_per_visit"
   | R12_reply_without_request -> "reply_without_request" | R12_reply_untruthful -> "reply_untruthful"
   | R12_reply_from_wrong_state -> "reply_from_wrong_state"
+  | R12_found_not_successor -> "found_not_successor" | R12_found_not_next_token -> "found_not_next_token"
+  | R12_successor_changed_without_ready_reply -> "successor_changed_without_ready_reply" | R12_sweep_bound -> "sweep_bound"
+  | R13_high_prio_inside_hold_time -> "high_prio_inside_hold_time"
   | R13_low_prio_after_hold_time -> "low_prio_after_hold_time" | R13_second_cycle_after_hold_time -> "second_cycle_after_hold_time"
   | R15_transmit_without_token -> "transmit_without_token" | R15_transmit_while_outstanding -> "transmit_while_outstanding"
   | R15_round_robin -> "round_robin" | R15_reply_not_requested -> "reply_not_requested" | R15_reply_invalid -> "reply_invalid"
@@ -264,14 +269,15 @@ let monitor_events (events : event list) : Model.event list =
     | Api (name, obs) ->
         EApi ((match name with "new" -> ApiNew | "on" -> ApiOnline | "off" -> ApiOffline | _ -> ApiPassive),
               (if obs = "" then { v_conn = ConnOffline; v_in_ring = false; v_kind = KOffline; v_ns = Z0; v_ps = Z0;
-                                  v_las_valid = false; v_active = [] } else view_of_obs obs))
+                                  v_las_valid = false; v_active = []; v_gap_due = true } else view_of_obs obs))
     | Poll pr ->
         let tx = if pr.txs = "-" then None else Some (unhex pr.txs) in
         EPoll { s_now = z_of_int pr.now; s_busy = pr.busy; s_rx = unhex pr.rxs; s_tx = tx;
                 s_consumed = nat_of_int pr.consumed;
                 s_calls = calls_of_string pr.calls (match tx with Some b -> b | None -> []);
                 s_view = view_of_obs pr.obs }
-    | PanicEv _ -> EPanic) events
+    | PanicEv _ -> EPanic
+    | TimeoutEv -> ETimeout) events
 
 let handle (case : string) (out : string) : unit =
   incr n_cases;
@@ -309,6 +315,8 @@ let handle (case : string) (out : string) : unit =
     match evs with
     | [] -> ()
     | PanicEv _ :: _ -> diverge i "panic" "PANIC (not after a call)" "-"
+    | TimeoutEv :: _ -> diverge i "timeout" "TIMEOUT" "-"
+    | _ :: TimeoutEv :: _ -> diverge i "timeout" "TIMEOUT (call did not return)" "the model is total"
     | ev :: tl ->
         let impl_panics = (match tl with PanicEv _ :: _ -> true | _ -> false) in
         let finish (r : (fdl * string) res) (impl_out : string) =
@@ -349,7 +357,7 @@ let handle (case : string) (out : string) : unit =
                          (obs_of f'))
                | Panic s -> Panic s
                | OutOfFuel -> OutOfFuel) impl_out
-         | PanicEv _ -> ())
+         | PanicEv _ | TimeoutEv -> ())
   in
   go 0 events;
   if not !diverged then count "outcome:replayed";
@@ -357,6 +365,7 @@ let handle (case : string) (out : string) : unit =
   (* a poll that panicked has no trustworthy outputs: drop it, keep the PANIC marker *)
   let rec drop_panicked = function
     | Poll _ :: (PanicEv _ as pe) :: tl -> pe :: drop_panicked tl
+    | Poll _ :: TimeoutEv :: tl -> TimeoutEv :: drop_panicked tl
     | e :: tl -> e :: drop_panicked tl
     | [] -> [] in
   let violated = monitor p (nat_of_int (List.length apps)) (monitor_events (drop_panicked events)) in
